@@ -235,11 +235,17 @@ Proof. unfold tonl_keep, in_testonly_context. rtw. rewrite func_recv_type_rt. re
 Lemma tonl_type_cand_rt n pos : tonl_type_cand fs (a_ty (n_attrs (rt n))) pos = tonl_type_cand fs (a_ty (n_attrs n)) pos.
 Proof. unfold tonl_type_cand. rtw. reflexivity. Qed.
 
+Lemma method_recv_type_rt f : type_info (method_recv_type (rt f)) = type_info (method_recv_type f).
+Proof.
+  unfold method_recv_type. rewrite rt_obj. destruct (a_obj (n_attrs f)) as [o|]; [|apply rt_type_info].
+  destruct (o_kind o); try apply rt_type_info. destruct (o_is_method o); [reflexivity|apply rt_type_info].
+Qed.
+
 Lemma tonl_cands_rt n : tonl_cands fs (rt n) = tonl_cands fs n.
 Proof.
   unfold tonl_cands. rtw. destruct (n_kind n); try reflexivity; try apply tonl_type_cand_rt.
   - destruct (a_flag (n_attrs n)); [apply tonl_type_cand_rt|reflexivity].
-  - destruct (n_children n) as [|f r]; [reflexivity|]. cbn [map]. rtw. destruct (n_kind f); try reflexivity.
+  - destruct (n_children n) as [|f r]; [reflexivity|]. cbn [map]. rewrite method_recv_type_rt. rtw. destruct (n_kind f); try reflexivity.
     destruct (n_children f) as [|x r']; cbn [map]; [reflexivity|]. rtw. reflexivity.
 Qed.
 
